@@ -100,6 +100,9 @@ class Check:
             seen.add(f.ident())
             (old if f.ident() in kmap else new).append(f)
         os.makedirs(os.path.join(EVID, "replay"), exist_ok=True)
+        for old_f in os.listdir(os.path.join(EVID, "replay")):
+            if old_f.startswith(self.prop + "-"):
+                os.remove(os.path.join(EVID, "replay", old_f))
         for f in old:
             print("KNOWN-FINDING: property=%s %s" % (self.prop, f.line()))
         vio_paths = []
